@@ -265,6 +265,10 @@ def run(tier, seed):
     chk.add_tlc(res, "Machine exhaustive")
     cells = sweep_part(chk, tier, seed)
     frames_part(chk, tier, seed, cells)
+    # "the native stack is never exhausted by evaluation": deep live data through the real binary, whose
+    # default collection heuristic runs collections in the middle of the evaluation
+    from checks import c03
+    c03.cli_deep_part(chk, tier, seed)
     return chk.finish()
 
 
